@@ -15,7 +15,7 @@ func init() {
 }
 
 func genC01(c *Ctx, r *rng.R, i int) {
-	if i < 12 {
+	if i < 13 {
 		c01Corpus(c, i)
 		return
 	}
@@ -311,6 +311,18 @@ func c01Corpus(c *Ctx, i int) {
 		c01Pair(c, "OEq", []cty.Value{l, l}, []cty.Value{l, cty.UnknownVal(cty.List(cty.DynamicPseudoType))}, true)
 		ob := cty.ObjectVal(map[string]cty.Value{"a": cty.TupleVal([]cty.Value{cty.True})})
 		c01Pair(c, "OEq", []cty.Value{ob, ob}, []cty.Value{cty.UnknownVal(cty.Object(map[string]cty.Type{"a": cty.Tuple([]cty.Type{cty.DynamicPseudoType})})), ob}, true)
+	case 12: // an unknown set that says how long it is, against a known set whose own length is not settled
+		k := cty.SetVal([]cty.Value{cty.NumberIntVal(1), cty.NumberIntVal(2)})
+		ku := cty.SetVal([]cty.Value{cty.NumberIntVal(1), cty.UnknownVal(cty.Number)})
+		for _, u := range []cty.Value{
+			cty.UnknownVal(cty.Set(cty.Number)).Refine().NotNull().CollectionLengthLowerBound(1).NewValue(),
+			cty.UnknownVal(cty.Set(cty.Number)).Refine().NotNull().CollectionLengthUpperBound(2).NewValue(),
+			cty.UnknownVal(cty.Set(cty.Number)).Refine().CollectionLengthLowerBound(2).CollectionLengthUpperBound(3).NewValue(),
+		} {
+			c01Pair(c, "OEq", []cty.Value{k, k}, []cty.Value{u, ku}, true)
+			c01Pair(c, "OEq", []cty.Value{k, k}, []cty.Value{ku, u}, true)
+			c01Pair(c, "ONe", []cty.Value{cty.TupleVal([]cty.Value{k}), cty.TupleVal([]cty.Value{k})}, []cty.Value{cty.TupleVal([]cty.Value{u}), cty.TupleVal([]cty.Value{ku})}, true)
+		}
 	default: // object with one unknown and one unequal attribute (fixed: order independence)
 		x := cty.ObjectVal(map[string]cty.Value{"a": cty.StringVal("x"), "b": cty.NumberIntVal(1)})
 		y := cty.ObjectVal(map[string]cty.Value{"a": cty.StringVal("x"), "b": cty.NumberIntVal(2)})
